@@ -230,6 +230,14 @@ def c18_splitprobe(ctx, seqrun, stats, divs):
 def c18_extra(ctx, seqrun, stats, divs):
     c18_noalloc(ctx, seqrun, stats, divs)
     c18_splitprobe(ctx, seqrun, stats, divs)
+    # zero-sized item types are outside the Model: constructors checked by the property-level probe (length, initial availabilities)
+    bindir, log = ctx.build_harness(('zstprobe',))
+    if bindir is not None:
+        rc, out = common.sh([os.path.join(bindir, 'zstprobe'), str(ctx.seed), '200' if ctx.tier == 'quick' else '5000'], timeout=600)
+        mm = re.search(r'MISMATCH (.*)', out)
+        if mm and 'requested with length' in mm.group(1):
+            ctx.violation('zero-sized item type: ' + mm.group(1).split(': ', 1)[-1][:300], f'## replay: .build/cargo/debug/zstprobe {ctx.seed} 200\n## {mm.group(1)}\n')
+        elif not mm: ctx.notes['zst_constructors'] = out.strip()[-80:]
 
 def c04_safe_ops(ctx, seqrun, stats, divs):
     """the sentence `no safe operation moves an iterator past the iterator ahead`: safe methods whose contract fails"""
